@@ -467,7 +467,15 @@ def class_shapes(ctx, prefix, classes):
                           where='%s:%d' % (c.module.relpath, c.node.lineno))
         if cn in OWN_METHODS:
             got = set(m for m in c.methods if not m.endswith('.setter'))
-            unexpected = got - OWN_METHODS[cn]
+            # a new private helper is harmless (the tables see through it); what matters is a method
+            # that shadows inherited behaviour or one of the dispatch names
+            dispatch = {'_do_put', '_do_get', '_trigger_put', '_trigger_get', 'put', 'get', 'request', 'release', 'cancel',
+                        '__enter__', '__exit__', 'append', 'sort', 'pop', 'remove', '__lt__', '__eq__', '__le__', '__gt__',
+                        '__ge__', '__init__', '__new__', '__getattribute__', '__getattr__', '__setattr__'}
+            inherited = set()
+            for b in c.mro()[1:]:
+                inherited |= set(b.methods)
+            unexpected = set(m for m in got - OWN_METHODS[cn] if m in dispatch or m in inherited)
             missing = OWN_METHODS[cn] - got
             ok = not unexpected and not missing
             ctx.ob(rule, ok)
